@@ -73,6 +73,7 @@ var c14 struct {
 	script         []int
 	scriptPos      int
 	nextRunID      string
+	duringLogin    func() // runs while a login round trip is outstanding (between Login and LoginResp)
 }
 
 func c14StubUntil(f func(), period time.Duration, stopCh <-chan struct{}) {
@@ -120,6 +121,11 @@ func c14StubReadMsgInto(c io.Reader, m msg.Message) error {
 	if cc != nil && len(cc.readDeadline) > 0 {
 		last := cc.readDeadline[len(cc.readDeadline)-1]
 		c14.deadlineSet = !last.IsZero()
+	}
+	if c14.duringLogin != nil {
+		f := c14.duringLogin
+		c14.duringLogin = nil
+		f()
 	}
 	if c14.script != nil {
 		k := c14.script[c14.scriptPos]
@@ -372,7 +378,7 @@ func VerifC14ReloginConfig() {
 	zzverif.Assert(c14.backoffN == 1 && c14.backoffFn != nil, "C14.relogin.loop-started")
 	attempt := c14.backoffFn
 	fails := zzverif.Choice("failedAttempts", 3)
-	reloadAt := zzverif.Choice("reloadBeforeAttempt", 4) // 3 = no reload
+	reloadAt := zzverif.Choice("reloadBeforeAttempt", 5) // 3 = no reload, 4 = while the last (successful) login is outstanding
 	want := "a"
 	c14.script, c14.scriptPos, c14.nextRunID = nil, 0, "rid"
 	for i := 0; i < fails; i++ {
@@ -391,6 +397,13 @@ func VerifC14ReloginConfig() {
 			zzverif.Assert(svr.UpdateAllConfigurer([]v1.ProxyConfigurer{mk("b")}, nil) == nil, "C14.relogin.reload-accepted")
 			want = "b"
 			zzverif.Reach("C14.relogin.reloaded-during-outage")
+		}
+		if reloadAt == 4 && i == fails {
+			c14.duringLogin = func() {
+				zzverif.Assert(svr.UpdateAllConfigurer([]v1.ProxyConfigurer{mk("b")}, nil) == nil, "C14.relogin.reload-accepted")
+				want = "b"
+				zzverif.Reach("C14.relogin.reloaded-during-login")
+			}
 		}
 		done, err := attempt()
 		if i < fails {
